@@ -370,3 +370,146 @@ Proof.
         -- cbn [all_t]. split; [|exact I]. unfold wfi.
            split; [intros _; apply (Hv eq_refl) | split; [intros _; exact V | subst k; exact Hk]].
 Qed.
+
+(* ---------- update of a node's info, found by lookup ---------- *)
+Lemma upd_f_fget : forall f j p g,
+  upd_f f j p g = match fget f j with Some t => fset f j (Some (upd_t t p g)) | None => f end.
+Proof.
+  induction f; simpl; intros; auto. destruct j; simpl.
+  - destruct o; auto.
+  - rewrite IHf. destruct (fget f j); auto.
+Qed.
+
+Lemma app_eq_self_cons : forall (A : Type) (a b : list A) x, a = a ++ x :: b -> False.
+Proof. intros. apply (f_equal (@length A)) in H. rewrite app_length in H. simpl in H. lia. Qed.
+
+Lemma upd_ok : forall sz n, size_t n <= sz -> forall k p, look_t n k true = Some p ->
+  exists t, get_at n p = Some t /\ core_of (t_info t) = obs_t n k /\
+    (forall g q e, look_t (upd_t n p g) q e = look_t n q e) /\
+    (forall g q, obs_t (upd_t n p g) q = if list_eq_dec Nat.eq_dec q k then core_of (g (t_info t)) else obs_t n q) /\
+    (forall P g, all_t P n -> (P (t_info t) (t_seg t) -> P (g (t_info t)) (t_seg t)) -> all_t P (upd_t n p g)).
+Proof.
+  induction sz; intros n Hsz k p H.
+  { destruct n; simpl in Hsz; lia. }
+  destruct n as [i seg f]. cbn [look_t] in H. cbn [obs_t].
+  destruct (strip seg k 0) eqn:S; try discriminate.
+  - apply strip_keyend in S. destruct S as [rest [S1 S2]]. simpl in S2. subst sc.
+    destruct (length k <? length seg) eqn:E; simpl in H; [discriminate|].
+    inversion H; subst p; clear H.
+    assert (rest = []).
+    { destruct rest; auto. subst seg. rewrite app_length in E. simpl in E. apply Nat.ltb_ge in E. lia. }
+    subst rest. rewrite app_nil_r in S1. subst seg.
+    exists (TN i k f). split; [reflexivity|]. split; [reflexivity|]. split; [|split].
+    + intros. reflexivity.
+    + intros. cbn [upd_t obs_t t_info]. destruct (list_eq_dec Nat.eq_dec q k) as [e|e].
+      * subst q. rewrite strip_self. simpl. rewrite Nat.ltb_irrefl. reflexivity.
+      * destruct (strip k q 0) eqn:S; auto.
+        apply strip_keyend in S. destruct S as [rest [S1 S2]]. simpl in S2. subst sc.
+        destruct (length q <? length k) eqn:E2; auto.
+        exfalso. apply e. destruct rest; [rewrite app_nil_r in S1; auto|].
+        rewrite S1 in E2. rewrite app_length in E2. simpl in E2. apply Nat.ltb_ge in E2. lia.
+    + intros P g [HP Hf] Hg. cbn [upd_t all_t]. split; auto.
+  - pose proof (strip_segend _ _ _ _ _ S) as Sk.
+    rewrite look_f_fget in H. destruct (fget f (c2i c)) as [t0|] eqn:G; [|discriminate].
+    destruct (look_t t0 k' true) as [p0|] eqn:L; [|discriminate]. inversion H; subst p; clear H.
+    assert (Hst : size_t t0 <= sz). { apply size_fget in G. simpl in Hsz. lia. }
+    destruct (IHsz t0 Hst k' p0 L) as [t [G1 [G2 [G3 [G4 G5]]]]].
+    pose proof (fget_some_lt _ _ _ G) as Hlt.
+    exists t. split; [simpl; rewrite G; exact G1|]. split.
+    { rewrite obs_f_fget, G. exact G2. }
+    split; [|split].
+    + intros. cbn [upd_t look_t]. destruct (strip seg q 0) as [sc2|sc2 c0 k2|c0 k2]; auto.
+      rewrite upd_f_fget, G. rewrite !look_f_fget.
+      destruct (Nat.eq_dec (c2i c0) (c2i c)) as [e0|e0].
+      * rewrite e0, fget_fset_same, G by auto. rewrite G3. reflexivity.
+      * rewrite fget_fset_other by congruence. reflexivity.
+    + intros. cbn [upd_t obs_t]. rewrite upd_f_fget, G.
+      destruct (strip seg q 0) as [sc2|sc2 c0 k0|c0 k0] eqn:S2.
+      * destruct (list_eq_dec Nat.eq_dec q k) as [e|e]; auto.
+        exfalso. subst q. pose proof (eq_trans (eq_sym S) S2) as X. discriminate X.
+      * destruct (list_eq_dec Nat.eq_dec q k) as [e|e]; auto.
+        exfalso. subst q. pose proof (eq_trans (eq_sym S) S2) as X. discriminate X.
+      * pose proof (strip_segend _ _ _ _ _ S2) as Sq.
+        rewrite !obs_f_fget.
+        destruct (Nat.eq_dec (c2i c0) (c2i c)) as [e0|e0].
+        -- rewrite e0, fget_fset_same, G by auto. apply c2i_inj in e0. subst c0.
+           rewrite G4.
+           destruct (list_eq_dec Nat.eq_dec k0 k') as [e1|e1]; destruct (list_eq_dec Nat.eq_dec q k) as [e2|e2]; auto.
+           ++ exfalso. apply e2. subst. reflexivity.
+           ++ exfalso. apply e1. subst q. rewrite Sk in e2. apply app_inv_head in e2. inversion e2. reflexivity.
+        -- rewrite fget_fset_other by congruence.
+           destruct (list_eq_dec Nat.eq_dec q k) as [e2|e2]; auto.
+           exfalso. assert (X : seg ++ c0 :: k0 = seg ++ c :: k') by congruence. apply app_inv_head in X. inversion X. subst. apply e0. reflexivity.
+    + intros P g [HP Hf] Hg. cbn [upd_t all_t]. split; auto.
+      rewrite upd_f_fget, G. apply all_f_fset; auto. apply G5; auto. eapply all_f_fget; eauto.
+Qed.
+
+(* ---------- trie_node_release ---------- *)
+Lemma rel_f_fget : forall f j p,
+  rel_f f j p = match fget f j with
+                | Some t => match rel_t t p false with
+                            | Some t' => Some (fset f j (Some t'), false)
+                            | None => Some (fset f j None, true)
+                            end
+                | None => None
+                end.
+Proof.
+  induction f; simpl; intros; auto. destruct j; simpl.
+  - destruct o; auto.
+  - rewrite IHf. destruct (fget f j); auto. destruct (rel_t t p false); auto.
+Qed.
+
+Lemma fall_none_fget : forall f j, fall_none f = true -> fget f j = None.
+Proof.
+  induction f; simpl; intros; auto. destruct o; [discriminate|]. destruct j; auto.
+Qed.
+
+Lemma releasable_blank : forall i seg f hdr, wfi i seg -> releasable i f hdr = true ->
+  hdr = false /\ forall q, obs_t (TN i seg f) q = blank.
+Proof.
+  unfold releasable. intros i seg f hdr [Hv [Hk _]] H.
+  apply andb_true_iff in H. destruct H as [H H4]. apply andb_true_iff in H. destruct H as [H H3].
+  apply andb_true_iff in H. destruct H as [H1 H2].
+  destruct (n_key i) eqn:K; [discriminate|]. destruct (n_nots i) eqn:N; [|discriminate].
+  split. { destruct hdr; auto; discriminate. }
+  intro q. cbn [obs_t]. destruct (strip seg q 0); auto.
+  - destruct (sc <? length seg); auto. unfold core_of, blank.
+    pose proof (Hk eq_refl) as V. destruct (Hv V) as [_ R]. rewrite K, V, R, N. reflexivity.
+  - rewrite obs_f_fget, fall_none_fget; auto.
+Qed.
+
+Lemma rel_ok : forall p n hdr, all_t wfi n ->
+  match rel_t n p hdr with
+  | Some n' => (forall q, obs_t n' q = obs_t n q) /\ all_t wfi n' /\ t_seg n' = t_seg n
+  | None => (forall q, obs_t n q = blank) /\ hdr = false
+  end.
+Proof.
+  induction p; intros n hdr Hwf; destruct n as [i seg f]; cbn [rel_t].
+  - destruct (releasable i f hdr) eqn:R.
+    + destruct Hwf as [Hi _]. destruct (releasable_blank _ _ _ _ Hi R). auto.
+    + auto.
+  - rewrite rel_f_fget. destruct (fget f a) as [t|] eqn:G.
+    2:{ auto. }
+    destruct Hwf as [Hi Hf].
+    pose proof (all_f_fget _ _ _ _ Hf G) as Ht.
+    pose proof (fget_some_lt _ _ _ G) as Hlt.
+    specialize (IHp t false Ht). destruct (rel_t t p false) as [t'|].
+    + destruct IHp as [I1 [I2 I3]]. split; [|split]; auto.
+      * intro q. cbn [obs_t]. destruct (strip seg q 0); auto. rewrite !obs_f_fget.
+        destruct (Nat.eq_dec (c2i c) a) as [e|e].
+        -- rewrite e, fget_fset_same, G by auto. apply I1.
+        -- rewrite fget_fset_other by congruence. reflexivity.
+      * cbn [all_t]. split; auto. apply all_f_fset; auto.
+    + destruct IHp as [I1 _].
+      assert (Hobs : forall q, obs_t (TN i seg (fset f a None)) q = obs_t (TN i seg f) q).
+      { intro q. cbn [obs_t]. destruct (strip seg q 0); auto. rewrite !obs_f_fget.
+        destruct (Nat.eq_dec (c2i c) a) as [e|e].
+        - rewrite e, fget_fset_same, G by auto. symmetry. apply I1.
+        - rewrite fget_fset_other by congruence. reflexivity. }
+      assert (Hall : all_t wfi (TN i seg (fset f a None))).
+      { cbn [all_t]. split; auto. apply all_f_fset; auto. }
+      destruct (releasable i (fset f a None) hdr) eqn:R.
+      * destruct (releasable_blank _ _ _ _ Hi R) as [X Y]. split; auto.
+        intro q. rewrite <- Hobs. apply Y.
+      * split; [|split]; auto.
+Qed.
